@@ -95,3 +95,213 @@ Proof.
   - intro H; apply sib_right_lt in H; lia.
   - destruct (Nat.ltb_spec (S i) (length l)); [|discriminate]. intros [= <-]; lia.
 Qed.
+
+Lemma exec_shift_eq s p c d sib :
+  exec_shift s p c d sib =
+  let l := kids s p in
+  match index_of c l with
+  | None => (s, Raise ValueError)
+  | Some i =>
+    match nth_error l i with
+    | None => (s, Raise IndexError)
+    | Some ci =>
+      match model_target s l i ci d sib with
+      | None => (s, RInt i)
+      | Some j => match swap_slots i j l with
+                  | Some l' => (set_kids s p l', RInt j)
+                  | None => (s, Raise IndexError)
+                  end
+      end
+    end
+  end.
+Proof. reflexivity. Qed.
+
+(** what shift does, in list-model terms *)
+Lemma exec_shift_spec s p c d sib :
+  exec_shift s p c d sib =
+  match pos c (kids s p) with
+  | None => (s, Raise ValueError)
+  | Some i => match spec_target (name s) (kids s p) i d sib with
+              | None => (s, RInt i)
+              | Some j => (set_kids s p (swap_at i j (kids s p)), RInt j)
+              end
+  end.
+Proof.
+  rewrite exec_shift_eq. cbv zeta. rewrite <- index_of_pos.
+  destruct (index_of c (kids s p)) as [i|] eqn:I; [|reflexivity].
+  destruct (index_of_Some _ _ _ I) as [L [N _]]. rewrite N.
+  rewrite (target_eq s _ i c d sib N).
+  destruct (spec_target (name s) (kids s p) i d sib) as [j|] eqn:T; [|reflexivity].
+  rewrite swap_slots_spec; auto. eapply spec_target_lt; eauto.
+Qed.
+
+Lemma exec_replace_spec fuel s p old new del :
+  exec_replace fuel s p old new del =
+  if negb (Nat.eqb (name s new) (name s old)) then (s, Raise ValueError) else
+  match pos old (kids s p) with
+  | None => (s, Raise ValueError)
+  | Some i =>
+    let s1 := set_parent s new (Some p) in
+    let s2' := set_kids s1 p (firstn i (kids s p) ++ [new] ++ skipn (S i) (kids s p)) in
+    let s2 := if negb (Nat.eqb old new) then clear_parent_if s2' old p else s2' in
+    if del then
+      let '(r, e) := del_tree fuel (kids s2) (reg s2) old in
+      (set_reg s2 r, match e with None => RNone | Some x => Raise x end)
+    else (s2, RNone)
+  end.
+Proof.
+  unfold exec_replace. destruct (negb (Nat.eqb (name s new) (name s old))); [reflexivity|].
+  rewrite <- index_of_pos.
+  destruct (index_of old (kids s p)) as [i|] eqn:I; [|reflexivity].
+  destruct (index_of_Some _ _ _ I) as [L _].
+  change (kids (set_parent s new (Some p)) p) with (kids s p).
+  rewrite list_set_spec by exact L. reflexivity.
+Qed.
+
+Theorem c09_refines fuel o s :
+  match step (name s) o (kids s) with
+  | None => exec fuel o s = (s, Raise ValueError)
+  | Some (ks', r) =>
+      (forall q, kids (fst (exec fuel o s)) q = ks' q) /\
+      (snd (exec fuel o s) = ret_of r \/
+       (exists p old new, o = ReplaceChild p old new true) /\
+       exists e, snd (exec fuel o s) = Raise e /\ registry_exn e)
+  end.
+Proof.
+  destruct o as [p c idx | p c | p old new del | p c d sib | p]; unfold step; simpl target; simpl step_list.
+  - (* add_child *)
+    destruct idx as [z|]; simpl; (split; [|left; reflexivity]); intro q; rewrite upd_eq;
+      [rewrite py_insert_spec|]; reflexivity.
+  - (* remove_child *)
+    simpl exec. unfold exec_remove. rewrite py_remove_spec, <- index_of_pos.
+    destruct (index_of c (kids s p)) as [i|]; [|reflexivity].
+    simpl. split; [|left; reflexivity]. intro q. rewrite kids_clear_parent_if. apply upd_eq.
+  - (* replace_child *)
+    simpl exec. rewrite exec_replace_spec.
+    destruct (Nat.eqb (name s new) (name s old)); simpl negb; cbv iota; [|reflexivity].
+    destruct (pos old (kids s p)) as [i|]; [|reflexivity].
+    cbv zeta.
+    set (s2' := set_kids (set_parent s new (Some p)) p (firstn i (kids s p) ++ [new] ++ skipn (S i) (kids s p))).
+    set (s2 := if negb (Nat.eqb old new) then clear_parent_if s2' old p else s2').
+    assert (K : kids s2 = kids s2').
+    { unfold s2. destruct (negb (Nat.eqb old new)); [apply kids_clear_parent_if | reflexivity]. }
+    destruct del.
+    + destruct (del_tree fuel (kids s2) (reg s2) old) as [r [e|]] eqn:D; simpl.
+      * split; [intro q; rewrite K; apply upd_eq|]. right. split; [eauto|].
+        exists e. split; [reflexivity|]. eapply del_tree_exn. rewrite D. reflexivity.
+      * split; [intro q; rewrite K; apply upd_eq | left; reflexivity].
+    + simpl. split; [intro q; rewrite K; apply upd_eq | left; reflexivity].
+  - (* shift *)
+    simpl exec. rewrite exec_shift_spec.
+    destruct (pos c (kids s p)) as [i|]; [|reflexivity].
+    fold (spec_target (name s) (kids s p) i d sib).
+    destruct (spec_target (name s) (kids s p) i d sib) as [j|]; simpl.
+    + split; [intro q; apply upd_eq | left; reflexivity].
+    + split; [|left; reflexivity]. intro q. destruct (Nat.eqb_spec q p); subst; reflexivity.
+  - (* remove_children *)
+    simpl. split; [|left; reflexivity]. intro q. rewrite upd_eq. rewrite kids_fold_clear. reflexivity.
+Qed.
+
+(** * a failing edit leaves everything unchanged *)
+Theorem c09_fail_unchanged fuel o s e :
+  snd (exec fuel o s) = Raise e ->
+  (e = ValueError /\ fst (exec fuel o s) = s) \/
+  ((exists p old new, o = ReplaceChild p old new true) /\ registry_exn e).
+Proof.
+  destruct o as [p c idx | p c | p old new del | p c d sib | p]; simpl exec.
+  - discriminate.
+  - unfold exec_remove. destruct (py_remove c (kids s p)); simpl; [discriminate|].
+    intros [= <-]. left; auto.
+  - rewrite exec_replace_spec.
+    destruct (negb (Nat.eqb (name s new) (name s old))); [simpl; intros [= <-]; left; auto|].
+    destruct (pos old (kids s p)) as [i|]; [|simpl; intros [= <-]; left; auto].
+    cbv zeta. destruct del; [|discriminate].
+    match goal with |- context [del_tree fuel ?k ?r old] => destruct (del_tree fuel k r old) as [r' [x|]] eqn:D end;
+      simpl; [|discriminate].
+    intros [= <-]. right. split; [eauto|]. eapply del_tree_exn. rewrite D. reflexivity.
+  - rewrite exec_shift_spec. destruct (pos c (kids s p)) as [i|]; [|simpl; intros [= <-]; left; auto].
+    destruct (spec_target (name s) (kids s p) i d sib); discriminate.
+  - discriminate.
+Qed.
+
+(** * shift never fails on a listed child and returns the child's actual index *)
+Theorem c09_shift fuel s p c d sib :
+  In c (kids s p) ->
+  exists i, snd (exec fuel (Shift p c d sib) s) = RInt i /\
+            nth_error (kids (fst (exec fuel (Shift p c d sib) s)) p) i = Some c /\
+            length (kids (fst (exec fuel (Shift p c d sib) s)) p) = length (kids s p).
+Proof.
+  intro I. simpl exec. rewrite exec_shift_spec.
+  destruct (index_of_In _ _ I) as [i0 E]. rewrite <- index_of_pos, E.
+  destruct (index_of_Some _ _ _ E) as [L [N _]].
+  destruct (spec_target (name s) (kids s p) i0 d sib) as [j|] eqn:T; simpl.
+  - exists j. split; [reflexivity|]. rewrite upd_eq, Nat.eqb_refl.
+    assert (Lj : j < length (kids s p)) by (eapply spec_target_lt; eauto).
+    split; [|apply swap_at_length].
+    rewrite (nth_error_nth' _ 0) by (rewrite swap_at_length; exact Lj).
+    rewrite swap_at_nth by assumption. f_equal.
+    rewrite Nat.eqb_refl. destruct (Nat.eqb_spec j i0); subst; apply nth_error_nth; exact N.
+  - exists i0. auto.
+Qed.
+
+(** * "nearest same-named sibling on that side" *)
+Lemma find_rev_seq (P : nat -> bool) n :
+  match find P (rev (seq 0 n)) with
+  | Some j => j < n /\ P j = true /\ forall k, j < k < n -> P k = false
+  | None => forall k, k < n -> P k = false
+  end.
+Proof.
+  induction n as [|n IH]; [simpl; intros; lia|].
+  rewrite seq_S, rev_app_distr. simpl.
+  destruct (P n) eqn:E.
+  - repeat split; auto; intros; lia.
+  - destruct (find P (rev (seq 0 n))) as [j|].
+    + destruct IH as [A [B C]]. repeat split; auto. intros k K.
+      destruct (Nat.eq_dec k n); subst; auto. apply C; lia.
+    + intros k K. destruct (Nat.eq_dec k n); subst; auto. apply IH; lia.
+Qed.
+
+Lemma find_seq (P : nat -> bool) n : forall a,
+  match find P (seq a n) with
+  | Some j => a <= j < a + n /\ P j = true /\ forall k, a <= k < j -> P k = false
+  | None => forall k, a <= k < a + n -> P k = false
+  end.
+Proof.
+  induction n as [|n IH]; intro a; simpl; [intros; lia|].
+  destruct (P a) eqn:E.
+  - repeat split; auto; intros; lia.
+  - specialize (IH (S a)). destruct (find P (seq (S a) n)) as [j|].
+    + destruct IH as [A [B C]]. repeat split; auto; try lia. intros k K.
+      destruct (Nat.eq_dec k a); subst; auto. apply C; lia.
+    + intros k K. destruct (Nat.eq_dec k a); subst; auto. apply IH; lia.
+Qed.
+
+Lemma sib_left_nearest nm l i :
+  match sib_left nm l i with
+  | Some j => j < i /\ nm (nth j l 0) = nm (nth i l 0) /\
+              forall k, j < k < i -> nm (nth k l 0) <> nm (nth i l 0)
+  | None => forall k, k < i -> nm (nth k l 0) <> nm (nth i l 0)
+  end.
+Proof.
+  unfold sib_left. pose proof (find_rev_seq (same_name nm l i) i) as H.
+  destruct (find (same_name nm l i) (rev (seq 0 i))) as [j|].
+  - destruct H as [A [B C]]. unfold same_name in *. repeat split; auto.
+    + apply Nat.eqb_eq; exact B.
+    + intros k K. apply Nat.eqb_neq. apply C; exact K.
+  - intros k K. apply Nat.eqb_neq. apply H; exact K.
+Qed.
+
+Lemma sib_right_nearest nm l i :
+  match sib_right nm l i with
+  | Some j => i < j < length l /\ nm (nth j l 0) = nm (nth i l 0) /\
+              forall k, i < k < j -> nm (nth k l 0) <> nm (nth i l 0)
+  | None => forall k, i < k < length l -> nm (nth k l 0) <> nm (nth i l 0)
+  end.
+Proof.
+  unfold sib_right. pose proof (find_seq (same_name nm l i) (length l - S i) (S i)) as H.
+  destruct (find (same_name nm l i) (seq (S i) (length l - S i))) as [j|].
+  - destruct H as [A [B C]]. unfold same_name in *. repeat split; try lia.
+    + apply Nat.eqb_eq; exact B.
+    + intros k K. apply Nat.eqb_neq. apply C; lia.
+  - intros k K. apply Nat.eqb_neq. apply H; lia.
+Qed.
